@@ -50,6 +50,12 @@ def cases(tier, rng):
         rs += [rng.choice([1, 4096, 65536]) for _ in range(rng.range(0, 12))]
         line = "c01ws %d %s %d %s" % (len(ws), " ".join(map(str, ws)), len(rs), " ".join(map(str, rs)))
         cs.append({"line": line, "key": line, "tags": {"carrier": "ws-adapter", "n": total, "dir": "adapter"}})
+    # several logical connections transferring both ways at the same time over one session, also with one or two scheduler threads (a
+    # buffer handed from one connection to another by mistake shows when goroutines switch at blocking points only)
+    for c, k, n, procs in ([("tcp", 4, 2000000, 1), ("tcp", 4, 2000000, 2), ("ws", 4, 1000000, 1), ("tcp", 6, 1000000, 0)] +
+                           ([("kcp", 4, 500000, 1), ("stdio", 4, 1000000, 1), ("tcp-starttls", 4, 1000000, 1), ("wss", 3, 1000000, 2), ("dns", 2, 20000, 1)] if thorough else [])):
+        line = "c01par %s %d %d %d" % (c, k, n, procs)
+        cs.append({"line": line, "key": line, "model": False, "tags": {"carrier": c, "n": n, "dir": "parallel"}})
     # run on the implementation only: a physical session older than the handshake's time limit (1 s here) when the connection is
     # opened, and the copy loops' logging variant (SOCKETACE_PIPE_DEBUG=1): multi-block transfers with further data after the first block
     for c in (CARRIERS if thorough else ["tcp", "tcp-starttls", "kcp", "ws"]):
@@ -78,6 +84,20 @@ def oracle(case, impl):
         return []
     if p[0] in ("setup", "connect"):
         return [("no-connection;carrier=" + t["carrier"], "no logical connection could be opened: " + impl[:100])]
+    if t["dir"] == "parallel":
+        out = []
+        q = impl.split(" c ")
+        for part in q:
+            w = part.split()
+            if w[0] == "c":
+                w = w[1:]
+            i, up, down = w[0], (int(w[2]), int(w[3])), (int(w[5]), int(w[6]))
+            for d, (got, diff) in (("up", up), ("down", down)):
+                if got != t["n"] or diff != -1:
+                    kind = "altered" if (diff != -1 and diff < got) else "lost"
+                    out.append(("bytes-%s;carrier=%s;parallel" % (kind, t["carrier"]),
+                                "with %s logical connections transferring at the same time, connection %s received %d of %d octets %s, first difference at %d (%s)" % (case["line"].split()[2], i, got, t["n"], d, diff, case["line"])))
+        return out[:3]
     out = []
     f = {}
     i = 0
